@@ -147,26 +147,14 @@ func c13ChangeID(c *Ctx) *RuleResult {
 			return true
 		})
 		var g *FuncCFG
-		ast.Inspect(u.Decl.Body, func(n ast.Node) bool {
-			cl, ok := n.(*ast.CompositeLit)
-			if !ok || len(cl.Elts) != 2 {
-				return true
-			}
-			tv, ok := info.Types[cl]
-			if !ok || !namedIs(tv.Type, modPath+"/"+virtualPkg, "ChangeInfo") {
-				return true
-			}
-			before, after := litFieldExpr(cl, "Before"), litFieldExpr(cl, "After")
-			if before == nil || after == nil {
-				return true
-			}
+		// judge one ChangeInfo value: `before` as written at the site, the contents object whose
+		// counter is reported as After
+		judge := func(site ast.Node, before ast.Expr, afterIsCounter bool, afterRecv, label string) {
 			if g == nil {
 				g = NewFuncCFG(info, u.Decl.Body)
 			}
-			// which contents object?
-			construct := constructOf(u, "ChangeInfo{"+exprStr(before)+", "+exprStr(after)+"}")
-			okI := fieldOf(info, after) == cid
-			// mutations of the same contents reaching this literal
+			construct := constructOf(u, label)
+			okI := afterIsCounter
 			src := resolveLocalAlias(u, before)
 			var defStmt ast.Node
 			if id, ok := ast.Unparen(before).(*ast.Ident); ok {
@@ -180,17 +168,12 @@ func c13ChangeID(c *Ctx) *RuleResult {
 			if fieldOf(info, src) != cid {
 				okI = false
 			}
-			afterSel, isSel := ast.Unparen(after).(*ast.SelectorExpr)
-			if !isSel {
-				return true
-			}
-			afterRecv := exprStr(afterSel.X)
 			for _, m := range muts {
 				mrecv := exprStr(ast.Unparen(m.(*ast.CallExpr).Fun).(*ast.SelectorExpr).X)
 				if mrecv != afterRecv {
 					continue
 				}
-				reaches, _ := g.ReachableWithout(m, cl, func(ast.Node) bool { return false })
+				reaches, _ := g.ReachableWithout(m, site, func(ast.Node) bool { return false })
 				if !reaches {
 					continue
 				}
@@ -200,10 +183,78 @@ func c13ChangeID(c *Ctx) *RuleResult {
 				}
 			}
 			if okI {
-				r.ok(construct, posOf(p, cl), "Before captured ahead of every modification that reaches this result, After read at the end")
+				r.ok(construct, posOf(p, site), "Before captured ahead of every modification that reaches this result, After read at the end")
 			} else {
-				r.bad(c.Prop, construct, posOf(p, cl), "the reported change info does not bracket the modification (Before captured after a change, or After not the current counter)")
+				r.bad(c.Prop, construct, posOf(p, site), "the reported change info does not bracket the modification (Before captured after a change, or After not the current counter)")
 			}
+		}
+		// a constructor helper: func (c *contents) f(before uint64) ChangeInfo { return ChangeInfo{Before: before, After: c.changeID} }
+		ctorParam := func(hu *FuncUnit) int {
+			if hu == nil || hu.Decl.Recv == nil || len(hu.Decl.Recv.List[0].Names) == 0 || len(hu.Decl.Body.List) != 1 {
+				return -1
+			}
+			ret, ok := hu.Decl.Body.List[0].(*ast.ReturnStmt)
+			if !ok || len(ret.Results) != 1 {
+				return -1
+			}
+			cl, ok := ast.Unparen(ret.Results[0]).(*ast.CompositeLit)
+			if !ok {
+				return -1
+			}
+			if tv, ok := hu.Info().Types[cl]; !ok || !namedIs(tv.Type, modPath+"/"+virtualPkg, "ChangeInfo") {
+				return -1
+			}
+			before, after := litFieldExpr(cl, "Before"), litFieldExpr(cl, "After")
+			if before == nil || after == nil || fieldOf(hu.Info(), after) != cid {
+				return -1
+			}
+			if sel, ok := ast.Unparen(after).(*ast.SelectorExpr); !ok || exprStr(sel.X) != hu.Decl.Recv.List[0].Names[0].Name {
+				return -1
+			}
+			id, ok := ast.Unparen(before).(*ast.Ident)
+			if !ok {
+				return -1
+			}
+			sig := hu.Fn.Type().(*types.Signature)
+			for i := 0; i < sig.Params().Len(); i++ {
+				if hu.Info().ObjectOf(id) == sig.Params().At(i) {
+					return i
+				}
+			}
+			return -1
+		}
+		if ctorParam(u) >= 0 {
+			r.ok(constructOf(u, "ChangeInfo constructor"), posOf(p, u.Decl), "reports its argument and the current counter; judged at the call sites")
+			continue
+		}
+		ast.Inspect(u.Decl.Body, func(n ast.Node) bool {
+			if call, ok := n.(*ast.CallExpr); ok {
+				if hu := p.UnitOf(calleeOf(info, call)); hu != nil {
+					if pi := ctorParam(hu); pi >= 0 && pi < len(call.Args) {
+						if sel, ok := ast.Unparen(call.Fun).(*ast.SelectorExpr); ok {
+							judge(call, call.Args[pi], true, exprStr(sel.X), "ChangeInfo{"+exprStr(call.Args[pi])+", "+exprStr(sel.X)+".changeID}")
+						}
+					}
+				}
+				return true
+			}
+			cl, ok := n.(*ast.CompositeLit)
+			if !ok || len(cl.Elts) != 2 {
+				return true
+			}
+			tv, ok := info.Types[cl]
+			if !ok || !namedIs(tv.Type, modPath+"/"+virtualPkg, "ChangeInfo") {
+				return true
+			}
+			before, after := litFieldExpr(cl, "Before"), litFieldExpr(cl, "After")
+			if before == nil || after == nil {
+				return true
+			}
+			afterSel, isSel := ast.Unparen(after).(*ast.SelectorExpr)
+			if !isSel {
+				return true
+			}
+			judge(cl, before, fieldOf(info, after) == cid, exprStr(afterSel.X), "ChangeInfo{"+exprStr(before)+", "+exprStr(after)+"}")
 			return true
 		})
 	}
